@@ -144,6 +144,8 @@ def run(ctx):
     # B. the three ways to run a program
     progs = sorted(glob.glob(os.path.join(build.VERIF, "corpus", "progs", "*.nano")))
     extra = [s for s, _ in corpus.nvm_corpus(tdir) if "/examples/language/nl_" in s or "/tests/test_" in s]
+    # argv[0] is the path of whatever was started: a program that prints its arguments has a different input in each of the three runs
+    extra = [s for s in extra if "get_argv" not in open(s, errors="replace").read()]
     rng.shuffle(extra)
     progs += extra[:(8 if quick else 120)]
     env = dict(os.environ)
